@@ -70,9 +70,9 @@ def guarded(fn, seconds=5.0):
     except AssertionError as e:
         return "assertion", str(e)
     except RuntimeError as e:
-        if "Could not find a cell" in str(e):
-            return "noCell", str(e)
-        return "other", f"RuntimeError: {e}"
+        # the placement states raise RuntimeError for exactly one reason (no cell left for an agent); the wording
+        # of the message is not part of the contract
+        return "noCell", str(e)
     except KeyError as e:
         return "keyError", str(e)
     except IndexError as e:
